@@ -49,6 +49,13 @@ CURATED_GREEDY = [
     # the start state is equivalent to a mid-token state (minimisation may merge them)
     spec("start-equivalent-mid-state", [tok("A", cat(star(lit("x")), lit("a")))]),
     spec("start-equivalent-mid-state2", [tok("N", cat(star(cls(["0-9"])), lit("."), plus(cls(["0-9"])))), tok("S", lit(" "))]),
+    # repetitions whose body can match the empty string (an epsilon-only cycle in the Thompson NFA): the "unrolled loop" idiom
+    spec("nullable-body-ident", [tok("ID", cat(cls(["a-z"]), star(cat(star(cls(["a-z", "0-9"])), opt(lit("_")))))), tok("N", plus(cls(["0-9"]))), WS]),
+    spec("nullable-body-string", [tok("STR", cat(lit('"'), star(alt(star(cls(["a-z"])), cat(lit([0x5C]), cls(["n", '"', 0x5C])))), lit('"'))),
+                                  tok("ID", plus(cls(["a-z"]))), WS]),
+    spec("nullable-body-plus", [tok("X", cat(plus(cat(opt(lit("a")), opt(lit("b")))), lit("c"))), tok("A", lit("a")), tok("B", lit("b"))]),
+    spec("nullable-body-nested", [tok("Y", cat(star(star(star(lit("a")))), lit("z"))), tok("AZ", cat(lit("a"), lit("a"), lit("q"))), tok("A", lit("a"))]),
+    spec("nullable-body-alt-opt", [tok("P", cat(lit("<"), star(alt(opt(lit("x")), cat(lit("y"), opt(lit("y"))))), lit(">"))), tok("LT", lit("<")), tok("XS", plus(lit("x")))]),
     spec("surrogate-edges", [tok("BELOW", plus(cls([[0xD000, 0xD7FF]]))), tok("ABOVE", plus(cls([[0xE000, 0xE0FF]]))), tok("A", lit("a"))]),
 ]
 
